@@ -26,8 +26,8 @@ theorem C06_parse_bare (lower : Str → Str) (ci : Bool) (file : Bytes) (start :
     (hok : headerOK (slice (slice file start 0x5C) 0 0x28))
     (hrep : repDir (envOf lower ci file start 0 (slice (slice file start 0x5C) 0 0x28))
               (slice (envOf lower ci file start 0 (slice (slice file start 0x5C) 0 0x28)).dm 0 0x18) t = true)
-    (hd : t.numDirs ≤ u32 (slice (slice file start 0x5C) 0 0x28) 16 / 0x18)
-    (hf : t.numFiles ≤ u32 (slice (slice file start 0x5C) 0 0x28) 32 / 0x20)
+    (hd : t.numDirs ≤ (envOf lower ci file start 0 (slice (slice file start 0x5C) 0 0x28)).maxDirs)
+    (hf : t.numFiles ≤ (envOf lower ci file start 0 (slice (slice file start 0x5C) 0 0x28)).maxFiles)
     (hdist : Distinct (envOf lower ci file start 0 (slice (slice file start 0x5C) 0 0x28)) t) :
     parse lower ci file start =
       .ok ⟨.dir [0x52, 0x4F, 0x4F, 0x54] (shapeContents (envOf lower ci file start 0 (slice (slice file start 0x5C) 0 0x28)) t),
